@@ -71,9 +71,18 @@ Forged == /\ Ev.ev = "forged"
           /\ ~Ev.ok
           /\ UNCHANGED <<acc, newest, latest>>
 
+(*   {"ev":"cleaned","h":H,"idle_s":N,"removed":K}  nothing arrived for N seconds and the receiver's session      *)
+(*        cleaner ran once (K idle session objects were removed).  Which objects a receiver keeps is its own      *)
+(*        business: what it has accepted is what it has accepted.  (The driver delivers a stamp newer than every   *)
+(*        earlier one first after a removal, so nothing is claimed about old stamps at a receiver that dropped     *)
+(*        its session.)  The copies of a frame that follow are `tcheck` lines like any other.                     *)
+Cleaned == /\ Ev.ev = "cleaned"
+           /\ Ev.h \in DOMAIN latest
+           /\ UNCHANGED <<acc, newest, latest>>
+
 TraceNext == /\ l <= Len(Trace)
              /\ l' = l + 1
-             /\ (Reset \/ Check \/ TCheck \/ OwnSend \/ NoKeys \/ Forged)
+             /\ (Reset \/ Check \/ TCheck \/ OwnSend \/ NoKeys \/ Forged \/ Cleaned)
 
 TraceSpec == TraceInit /\ [][TraceNext]_tvars
 
